@@ -177,6 +177,14 @@ def run(tier):
                 hist = ("se:0:%s" % C.hexs(miss), "sg:0", "se:0:%s" % C.hexs(miss))
                 scripts.append("Q r0=%s %s" % (C.hexs(d), " ".join(hist)))
                 exps.append((dec, miss, hist))
+        # fetching a string must not change what equality, hashing, membership and lookup say about it (plain and escaped
+        # literals; a copy read separately is the probe)
+        for lit in [b"\"name\"", b"\"\"", b"\"a\\tb\"", b"\"plain text of some length\"", b"\"x\\\\y\"", b"\"0123456789abcdef\"", b"\"\\n\""]:
+            doc_m = b"{" + lit + b" 1 \"other\" 2 :k 3}"
+            doc_s = b"#{" + lit + b" \"other\" 7}"
+            hist = ["e:0.0:1", "lk:0:1", "sc:2:1", "h:0.0", "sg:0.0", "sg:2.0", "sg:0.2", "e:0.0:1", "lk:0:1", "ck:0:1", "sc:2:1", "h:0.0", "sg:1", "e:0.0:1", "lk:0:1", "sc:2:1", "h:1"]
+            scripts.append("Q r0=%s r1=%s r2=%s %s" % (C.hexs(doc_m), C.hexs(lit), C.hexs(doc_s), " ".join(hist)))
+            exps.append(("fetch-then-compare", None, hist))
         # several literals of one document fetched in interleaved orders: every buffer stays intact (exact bytes, NUL after
         # the end, same pointer) while the others are materialised; decoded lengths 0..33 cross every allocation granule
         for base_len in (0, 1, 6, 7, 8, 9, 14):
@@ -192,6 +200,10 @@ def run(tier):
                 exps.append((decs, None, hist))
         impl, model, diffs, crashes, mcr = K.correspond(cfg, scripts)
         rep.count("histories/" + cfg, len(scripts))
+        for idx, rc, err in crashes:
+            found = True
+            head = next((l for l in err.split("\n") if "ERROR" in l or "runtime error" in l), err.strip().split("\n")[0] if err.strip() else "")
+            rep.finding("history/crash", "fetch / compare script crashed: %s" % head[:160], {"kind": "script", "config": cfg, "line": scripts[idx], "stderr": err[-2500:]})
         for i in diffs[:5]:
             rep.broken_obligation("correspondence/script", "model %r vs code %r on %s" % (model[i], impl[i], scripts[i][:200]), False)
         for i, a in enumerate(impl):
@@ -199,6 +211,16 @@ def run(tier):
                 continue
             dec, cstr, hist = exps[i]
             toks = a.split("\t")
+            if dec == "fetch-then-compare":
+                t = toks[3:]
+                # positions: e lk sc h | sg sg sg | e lk ck sc h | sg | e lk sc h(probe)
+                want_lk = "(int 1)"
+                ok = (t[0] == t[7] == t[13] == "1" and t[1] == t[8] == t[14] == want_lk and t[2] == t[10] == t[15] == "1" and t[9] == "1" and t[3] == t[11] == t[16])
+                if toks[:3] == ["ok", "ok", "ok"] and not ok:
+                    found = True
+                    rep.finding("history/fetch-changes-comparison", "equality / lookup / membership / hash of a string changed after it was fetched: %s" % t,
+                                {"kind": "script", "config": cfg, "line": scripts[i], "observed": a[:600]})
+                continue
             for op, t in zip(hist, toks[1:]):
                 if op.startswith("sg") and isinstance(dec, list):
                     dd = dec[int(op.split(".")[1])]
